@@ -4,7 +4,7 @@
    memory-control TLV.  Everything else - UID, static and dynamic lock bytes, OTP/CC, the TLVs in front of the
    NDEF TLV, reserved ranges, the memory behind the data area - is outside. *)
 From Coq Require Import ZArith List Bool.
-From NV Require Import Base.Result Base.Bytes Model.TlvMem Model.T2T Proofs.TlvLib Proofs.T2TFrame.
+From NV Require Import Base.Result Base.Bytes Model.TlvMem Model.T2T Model.T1T Proofs.TlvLib Proofs.T2TFrame Proofs.T1T.
 Import ListNotations.
 Open Scope Z_scope.
 
@@ -44,3 +44,41 @@ Example C03_t2_nonvacuous :
   get (apply_ws ex_t2 (snd (t2_format ex_t2 (Some 255)))) 25 = 255.
 Proof. split; [vm_compute; reflexivity|]. split; [eexists; split; [vm_compute; reflexivity|]; split; vm_compute; reflexivity|].
   split; [vm_compute; discriminate|]. split; vm_compute; reflexivity. Qed.
+
+(* ---------------------------------------------------------------- Type 1 (write unit: one byte for static memory,
+   an 8 byte block for dynamic memory) *)
+Theorem C03_t1_write_frame : forall hr0 m d L, t1_wf_layout hr0 m -> t1_layout hr0 m = Some L ->
+  let m' := apply_ws m (snd (t1_write hr0 m d)) in
+  len m' = len m /\ forall a, 0 <= a < len m -> ndef_area L a = false -> get m' a = get m a.
+Proof. exact t1_write_frame. Qed.
+Print Assumptions C03_t1_write_frame.
+
+Theorem C03_t1_write_units : forall hr0 m d L, t1_wf_layout hr0 m -> t1_layout hr0 m = Some L ->
+  forall w, In w (snd (t1_write hr0 m d)) ->
+    len (snd w) = Z.of_nat (t1_unit hr0) /\ fst w mod Z.of_nat (t1_unit hr0) = 0 /\
+    0 <= fst w /\ fst w + Z.of_nat (t1_unit hr0) <= len m /\
+    exists x, fst w <= x < fst w + Z.of_nat (t1_unit hr0) /\ ndef_area L x = true.
+Proof. exact t1_write_units. Qed.
+Print Assumptions C03_t1_write_units.
+
+Definition ex_t1d : list Z := [1;2;3;4;5;6;7;0; 225;16;63;0; 1;3;242;48;51; 2;3;240;2;3; 3;0] ++ repeat 0 488.
+Example C03_t1_nonvacuous :
+  t1_wf_layout 18 ex_t1d /\ (exists L, t1_layout 18 ex_t1d = Some L /\ ndef_area L 104 = false /\ ndef_area L 127 = false /\ ndef_area L 128 = true) /\
+  length (snd (t1_write 18 ex_t1d (repeat 7 300))) = 40%nat.
+Proof. split; [vm_compute; reflexivity|]. split; [eexists; split; [vm_compute; reflexivity|]; repeat split; vm_compute; reflexivity|].
+  vm_compute; reflexivity. Qed.
+
+(* ---------------------------------------------------------------- Topaz / Topaz-512 product classes (tt1_broadcom.py):
+   format() re-creates the factory management bytes and wipes fixed ranges.  On a well-formed tag laid out differently
+   this damages bytes outside the NDEF area (open finding, no small repair): Topaz-512 with an additional memory
+   control TLV reserving bytes 200..207, NDEF TLV at byte 27, format(wipe=0). *)
+Definition ex_t1_fmt : list Z :=
+  [1;2;3;4;5;6;7;0; 225;16;63;0; 1;3;242;48;51; 2;3;240;2;3; 2;3;200;8;4; 3;0] ++ repeat 165 483.
+Theorem C03_t1_vendor_format_refuted :
+  t1_wf_layout 18 ex_t1_fmt /\
+  exists L, t1_layout 18 ex_t1_fmt = Some L /\ fst (t1_format_vendor 18 76 ex_t1_fmt (Some 0)) = Ok (Some true) /\
+    ndef_area L 200 = false /\ ndef_area L 24 = false /\
+    get ex_t1_fmt 200 = 165 /\ get (apply_ws ex_t1_fmt (snd (t1_format_vendor 18 76 ex_t1_fmt (Some 0)))) 200 = 0 /\
+    get ex_t1_fmt 24 = 200 /\ get (apply_ws ex_t1_fmt (snd (t1_format_vendor 18 76 ex_t1_fmt (Some 0)))) 24 = 0.
+Proof. split; [vm_compute; reflexivity|]. eexists. split; [vm_compute; reflexivity|]. repeat split; vm_compute; reflexivity. Qed.
+Print Assumptions C03_t1_vendor_format_refuted.
